@@ -201,6 +201,7 @@ def r09b(ctx):
                             if len(srcs_) >= 2 and all((se[:2] == ('const', 0)) or (sb is not None and a.cfg.must_pass(sb, via_edges=vt) and flow.mentions(se, lambda z: z[0] == 'field' and z[2] == 'num_entries'))
                                                        for (sb, _, se) in srcs_) and any(se[:2] != ('const', 0) for (_, _, se) in srcs_):
                                 ok1 = True
+            ok1 = ok1 or (c05.loop_of(a, ent[0]) is not None and not a.cfg.must_pass(ent[0], via_edges=vt) and iterations_under(a, ver[0], vt))
             ctx.check(ok1, 'R09b', path, 'verification under flag', a.loc(ver[0]), 'entries are %s unconditionally in a loop; verification entries in a loop under contains_verification()' % ('written' if kind == 'w' else 'read'))
             if kind == 'r':
                 # both loops are bounded by num_entries of the header just read
@@ -219,7 +220,7 @@ def r09b(ctx):
         te, fe = bool_edges(a, lambda e: (e[0] == 'call' and sg(e[1]).endswith(flag)) or (e[0] == 'bin' and e[1] == 'BitOr') or e[0] == 'local')
         te2, _ = bool_edges(a, lambda e: flow.mentions(e, lambda z: z[0] == 'call' and sg(z[1]).endswith(flag)))
         for d in ds:
-            ctx.check(bool(te2) and a.cfg.must_pass(d, via_edges=te + te2), 'R09b', a.path, ty + ' under flag', a.loc(d), '%s records are copied only under a %s() condition' % (ty, flag))
+            ctx.check(bool(te2) and (a.cfg.must_pass(d, via_edges=te + te2) or iterations_under(a, d, te + te2)), 'R09b', a.path, ty + ' under flag', a.loc(d), '%s records are copied only under a %s() condition' % (ty, flag))
 
 
 PAIRS = [
@@ -581,3 +582,81 @@ def r09g(ctx):
             ctx.check(False, 'R09g', fn, 'position', a.loc(v[0], v[1]), '', v[2])
     ctx.floor('R09g', 'writes whose returned count is added', tot['direct'], 15)
     ctx.floor('R09g', 'uncounted loop writes matched by a bulk update', tot['bulk'], 7)
+
+
+def iterations_under(a, site, edges, _depth=0):
+    """the call at `site` runs only where one of `edges` was taken: it is dominated by them, or it sits in a loop whose
+    trip count / iterated sequence is zero / empty on every path that did not take them
+    (`for _ in 0..(if flag { n } else { 0 })`, `for v in (if flag { &self.list } else { &[] })`)"""
+    from . import loops as L
+    if not edges:
+        return False
+    if a.cfg.must_pass(site, via_edges=edges):
+        return True
+    lp = c05.loop_of(a, site)
+    if lp is None:
+        return False
+    head, blks = lp
+
+    def empty(e):
+        while e[0] in ('cast', 'ref'):
+            e = e[1]
+        if e[:2] == ('const', 0):
+            return True
+        if e[0] == 'agg' and e[1] == 'array' and not e[3]:
+            return True
+        if e[0] in ('bytes', 'str') and not e[1]:
+            return True
+        return False
+
+    def zero_len_at(sb, si):
+        # a promoted `&[]`: the defining statement's type is a reference to a zero-length array
+        try:
+            st = a.blocks[sb]['s'][si]
+            d = st.get('d')
+            import re
+            ls = [d['l']] if d is not None and 'p' not in d else []
+            r = st.get('r') or {}
+            o = r.get('a') or {}
+            pl = o.get('mv') or o.get('cp')
+            if r.get('k') in ('cast', 'use') and pl is not None and 'p' not in pl:
+                ls.append(pl['l'])
+            return any(re.search(r'; 0\]$', a.flow.lty(l).strip()) is not None for l in ls)
+        except (IndexError, TypeError, KeyError):
+            return False
+
+    def guarded(e, sb, depth=0, si=None):
+        """every value e can take is empty/zero, or was produced where the edges had been taken"""
+        if empty(e) or (e[0] == 'item' and sb is not None and si is not None and zero_len_at(sb, si)):
+            return True
+        if sb is not None and sb not in blks and a.cfg.must_pass(sb, via_edges=edges):
+            return True
+        if depth >= 3:
+            return False
+        z = e
+        while z[0] == 'call' and sg(z[1]).split('::')[-1] in ('into_iter', 'iter', 'as_slice', 'deref', 'as_ref') and len(z[2]) == 1:
+            z = z[2][0]
+        if z[0] == 'agg' and 'ops::range::Range' in z[2]:
+            d = dict(z[3])
+            st, en = d.get('start'), d.get('end')
+            if st is not None and st[:2] == ('const', 0) and en is not None:
+                return guarded(en, sb, depth + 1)
+            return False
+        if z is not e:
+            return guarded(z, sb, depth + 1)
+        if z[0] == 'local':
+            srcs = a.flow.sources(z)
+            if srcs and not (len(srcs) == 1 and srcs[0][2] == z):
+                return all(guarded(se, sb2, depth + 1, si2) for (sb2, si2, se) in srcs)
+        return False
+
+    nx = [c for c in a.calls('core::iter::traits::iterator::Iterator::next') if c in blks and L._loop_of(a, c)[0] == head]
+    if len(nx) == 1:
+        it = a.arg(nx[0], 0)
+        srcs = a.flow.sources(it)
+        if srcs and all(guarded(se, sb, 0, si_) for (sb, si_, se) in srcs):
+            return True
+    c = L.counting_loop(a, lp, lambda y: True)
+    if c is not None and c.get('bound') is not None and guarded(c['bound'], None):
+        return True
+    return False
